@@ -10,7 +10,8 @@ from ..worlds import decode_stream
 from engineio import packet as eio_packet
 
 SCENARIOS = ['dup-ack', 'ack-two-ns', 'two-events', 'ack-and-loss',
-             'bin-event-then-event', 'bin-ack-then-event']
+             'bin-event-then-event', 'bin-ack-then-event',
+             'bin-raise-then-bin']
 
 
 def scenario_for(name):
@@ -25,7 +26,12 @@ def scenario_for(name):
             await loop.point('h-in')
             hlog.append(('out', args))
             return ('r',) + args
+        async def boom(*args):
+            hlog.append(('boom', args))
+            await loop.point('boom-in')
+            raise RuntimeError('scripted handler fault')
         c.on('h', h)
+        c.on('boom', boom)
         c.on('h', h, namespace='/a')
         loop.setup = True
         r = w.connect(script=[['0{"sid":"s1"}'], ['0/a,{"sid":"s2"}']],
@@ -51,7 +57,8 @@ def scenario_for(name):
                 await w.eio._receive_packet(
                     eio_packet.Packet(eio_packet.MESSAGE, frame))
         stream = None
-        if name in ('bin-event-then-event', 'bin-ack-then-event'):
+        if name in ('bin-event-then-event', 'bin-ack-then-event',
+                    'bin-raise-then-bin'):
             # one ordered stream (the transport does not reorder): a binary
             # packet, then an ordinary event, while the handler / callback of
             # the first is suspended.  (Transport writes are not suspension
@@ -59,6 +66,11 @@ def scenario_for(name):
             ph = '{"_placeholder":true,"num":0}'
             if name == 'bin-event-then-event':
                 stream = ['51-4["h",%s]' % ph, b'x', '25["h",2]']
+            elif name == 'bin-raise-then-bin':
+                # the handler of the first binary event fails while the
+                # second binary event is half received
+                stream = ['51-["boom",%s]' % ph, b'x',
+                          '51-6["h",%s]' % ph, b'y']
             else:
                 stream = ['61-1[%s]' % ph, b'x', '25["h",2]']
 
@@ -104,8 +116,10 @@ def judge(name, out):
     v = []
     if out['horizon'] or out['parked']:
         return [('C09/sched-stuck', f'{name}: {out}')]
-    if out['errors']:
-        v.append(('C09/sched-loop-error', f'{name}: {out["errors"]}'))
+    errors = [e for e in out['errors']
+              if 'scripted handler fault' not in repr(e)]
+    if errors:
+        v.append(('C09/sched-loop-error', f'{name}: {errors}'))
     tags = [t for t, a in out['fired']]
     if len(tags) != len(set(tags)):
         v.append(('C09/fired-twice', f'{name}: callbacks fired {out["fired"]}'))
@@ -125,6 +139,14 @@ def judge(name, out):
         if sorted(e for e in out['hlog'] if e[0] == 'in') != \
                 [('in', (1,)), ('in', (2,))]:
             v.append(('C09/sched-handler', f'{name}: {out["hlog"]}'))
+    elif name == 'bin-raise-then-bin':
+        acks = sorted(f for f in out['out'] if f[0] == 'pkt')
+        ins = [e for e in out['hlog'] if e[0] == 'in']
+        if acks != [('pkt', 6, '/', 6, ['r', b'y'])] or \
+                ins != [('in', (b'y',))]:
+            v.append(('C09/sched-fault-spill', f'{name}: the failure of the '
+                      f'first event\'s handler reached the second event: '
+                      f'handler log {out["hlog"]}, client sent {acks}'))
     elif name in ('bin-event-then-event', 'bin-ack-then-event'):
         acks = sorted(f for f in out['out'] if f[0] == 'pkt')
         ins = sorted((e for e in out['hlog'] if e[0] == 'in'), key=repr)
